@@ -458,7 +458,14 @@ class MultiSchemaPool(pool_mod.FixedPool):
             if not hmac.compare_digest(digest, expected_digest):
                 raise AssertionError("message signature verification failed")
 
-            method_name, args = pickle.loads(msg)
+            try:
+                method_name, args = pickle.loads(msg)
+            except Exception as ex:
+                # Nothing was stored: the client must not record the state
+                # it sent along with this request as held by us.
+                raise state_mod.FailedStateSync(
+                    f"request not processed: {type(ex).__name__}({ex})"
+                ) from ex
             if method_name != "__init_server__":
                 await self._ready_evt.wait()
             if method_name == "__init_server__":
